@@ -645,3 +645,27 @@ package fsm
 // (whatever its pro-rata share rounds to), so the holding pool keeps matching the operations still pending
 //@ func (*StateMachine).handleBatchDeposit
 //@   loop 3 iterensures[moved] accepted[i] && local ==> poolBal(wrap64(chainId + HoldingPoolAddend)) == athead(poolBal(wrap64(chainId + HoldingPoolAddend))) - deposit.Amount
+
+// ---- C20: escrowed orders are paid out once, to the locked buyer, and locks do not move tokens -------------------
+// closing an order pays exactly the escrowed amount from the chain's escrow pool to the buyer the order was
+// locked for, only for a locked order, and ends by deleting the order (so it cannot be paid again); locking and
+// resetting an order rewrite the order and move nothing
+//@ func (*StateMachine).EventOrderBookSwap
+//@   trusted
+//@   modifies lib.EventsTracker.Events, elems(*lib.Event)
+//@ func (*StateMachine).EventOrderBookLock
+//@   trusted
+//@   modifies lib.EventsTracker.Events, elems(*lib.Event)
+//@ func (*StateMachine).EventOrderBookReset
+//@   trusted
+//@   modifies lib.EventsTracker.Events, elems(*lib.Event)
+//@ func (*StateMachine).CloseOrder
+//@   callsite PoolSub requires[escrow] order.BuyerReceiveAddress != nil && callee.id == wrap64(chainId + EscrowPoolAddend) && callee.amountToSub == order.AmountForSale
+//@   callsite AccountAdd requires[buyer] addrOf(callee.address) == bytes(order.BuyerReceiveAddress) && callee.amountToAdd == order.AmountForSale
+//@   callsite DeleteOrder requires[sameorder] callee.orderId == orderId && callee.chainId == chainId
+//@   ensures[conserve] err == nil ==> drift(s) == old(drift(s)) && supTotal(s) == old(supTotal(s)) && stakeSum(s) == old(stakeSum(s))
+//@   ensures[paid] err == nil ==> poolSum(s) < old(poolSum(s)) || acctSum(s) == old(acctSum(s))
+//@ func (*StateMachine).LockOrder
+//@   ensures[nomove] acctBal() == old(acctBal()) && poolBal() == old(poolBal()) && drift(s) == old(drift(s))
+//@ func (*StateMachine).ResetOrder
+//@   ensures[nomove] acctBal() == old(acctBal()) && poolBal() == old(poolBal()) && drift(s) == old(drift(s))
